@@ -71,7 +71,7 @@ def cells(tier):
                         SA = R.SYSTEMS[da]
                         cfg = {"id": f"op|{op.name}|{da}|{db or ''}|{lay}|{'reg' if reg else 'unreg'}", "group": "op",
                                "registered": reg, "op": op.name, "da": da, "db": db, "ka": lay, "sa": R.sysname(SA[h % len(SA)]),
-                               "fa": "m" if op.momentum else "gm"[(h >> 5) % 2], "extra": True, "alt": (h >> 7) % 3, "scal": "arr" if (h >> 9) % 2 else "py"}
+                               "fa": "m" if op.momentum else "gm"[(h >> 5) % 2], "extra": "option" if (h >> 19) % 2 else True, "alt": (h >> 7) % 3, "scal": "arr" if (h >> 9) % 2 else "py"}
                         cfg["spa"] = "momentum" if cfg["fa"] == "m" and (h >> 11) % 2 else "generic"
                         if db:
                             SB = R.SYSTEMS[db]
